@@ -62,6 +62,8 @@ struct Spec {
     minconf: f32,
     vis_cos: bool,
     vis_thr: f32,
+    stc: Vec<(usize, f32)>, // spatio-temporal constraints (epoch delta, max distance in 2r); empty = none
+    grp: Vec<usize>,        // C15 runner: sizes of the batches (consecutive calls, distinct scenes); empty = one call per batch
     calls: Vec<(u64, Vec<Det>)>,
 }
 
@@ -106,7 +108,7 @@ impl Spec {
             })
             .collect();
         format!(
-            "k={} trk={} shards={} hist={} idle={} maxobs={} minlen={} votes={} quse={} qcol={} minarea={} ownuse={} owncol={} pos={} minconf={} vis={}:{} calls={}",
+            "k={} trk={} shards={} hist={} idle={} maxobs={} minlen={} votes={} quse={} qcol={} minarea={} ownuse={} owncol={} pos={} minconf={} vis={}:{} stc={} grp={} calls={}",
             self.k,
             self.trk,
             self.shards,
@@ -127,6 +129,8 @@ impl Spec {
             f32b(self.minconf),
             if self.vis_cos { "cos" } else { "euc" },
             f32b(self.vis_thr),
+            if self.stc.is_empty() { "-".to_string() } else { self.stc.iter().map(|(g, l)| format!("{}:{}", g, f32b(*l))).collect::<Vec<_>>().join(",") },
+            if self.grp.is_empty() { "-".to_string() } else { self.grp.iter().map(|g| g.to_string()).collect::<Vec<_>>().join(",") },
             calls.join(";")
         )
     }
@@ -179,12 +183,29 @@ impl Spec {
             minconf: fb(g("minconf")),
             vis_cos: vk == "cos",
             vis_thr: fb(vt),
+            stc: match m.get("stc") {
+                None => vec![],
+                Some(x) if *x == "-" => vec![],
+                Some(x) => x.split(',').map(|e| { let (g, l) = e.split_once(':').unwrap(); (g.parse().unwrap(), fb(l)) }).collect(),
+            },
+            grp: match m.get("grp") {
+                None => vec![],
+                Some(x) if *x == "-" => vec![],
+                Some(x) => x.split(',').map(|e| e.parse().unwrap()).collect(),
+            },
             calls,
         }
     }
 
     fn options(&self) -> VisualSortOptions {
-        VisualSortOptions::default()
+        let base = if self.stc.is_empty() {
+            VisualSortOptions::default()
+        } else {
+            let mut c = SpatioTemporalConstraints::default();
+            c.add_constraints(self.stc.clone());
+            VisualSortOptions::default().spatio_temporal_constraints(c)
+        };
+        base
             .max_idle_epochs(self.idle)
             .kept_history_length(self.hist)
             .visual_metric(if self.vis_cos {
@@ -723,6 +744,8 @@ fn base_spec(k: usize, rng: &mut Rng) -> Spec {
         minconf: *rng.pick(&[0.05, 0.1, 0.25]),
         vis_cos: false,
         vis_thr: f32::MAX,
+        stc: vec![],
+        grp: vec![],
         calls: vec![],
     }
 }
@@ -1003,6 +1026,299 @@ fn gen_c01(k: usize, rng: &mut Rng) -> Spec {
     s
 }
 
+/// C04 (visual trackers): 2-4 scenes that deliberately occupy the SAME image region with look-alike features, calls
+/// interleaved at random; with / without spatio-temporal constraint tables (loose or binding); max_idle 1-3.
+fn gen_c04(k: usize, rng: &mut Rng) -> Spec {
+    let mut s = base_spec(k, rng);
+    s.trk = if rng.chance(1, 3) { "bvs".into() } else { "vs".into() };
+    s.shards = 1 + rng.below(3) as usize;
+    s.idle = 1 + rng.below(3) as usize;
+    s.hist = 1 + rng.below(3) as usize;
+    s.maxobs = *rng.pick(&[1usize, 2, 3, 5]);
+    s.minlen = 1 + rng.below(s.maxobs.min(2) as u64) as usize;
+    s.votes = 1 + rng.below(s.maxobs.min(2) as u64) as usize;
+    s.vis_cos = rng.chance(1, 4);
+    s.vis_thr = if s.vis_cos { *rng.pick(&[0.5f32, 0.9]) } else { *rng.pick(&[1.0f32, 2.0, f32::MAX]) };
+    s.quse = *rng.pick(&[0.0, 0.25]);
+    s.qcol = *rng.pick(&[0.0, 0.25, 0.5]);
+    s.minarea = 0.0;
+    s.stc = match rng.below(3) {
+        0 => vec![],
+        1 => (1..=s.idle + 1).map(|g| (g, 100.0f32)).collect(),                           // never binds
+        _ => (1..=s.idle + 1).map(|g| (g, *rng.pick(&[0.125f32, 0.25, 0.5, 1.0]) * g as f32)).collect(), // may bind
+    };
+    let nscenes = 2 + rng.below(3) as usize;
+    let nobj = 1 + rng.below(3) as usize;
+    let dim = *rng.pick(&[2usize, 4, 8]);
+    let pfeat = *rng.pick(&[100u64, 85, 50]);
+    let ncalls = 6 + rng.below(20) as usize;
+    // one set of object tracks (positions, velocities, identities) shared by all scenes, look-alike identities per scene
+    let mut ident: Vec<Vec<f32>> = vec![];
+    let mut motion: Vec<(f32, f32, f32, f32)> = vec![];
+    for ob in 0..nobj {
+        let mut v = vec![];
+        for _ in 0..dim {
+            v.push(rng.dyadic(-8, 8, 2));
+        }
+        if v.iter().all(|x| *x == 0.0) {
+            v[0] = 1.0;
+        }
+        ident.push(v);
+        motion.push((10.0 + ob as f32 * 45.0, 10.0 + rng.dyadic(0, 16, 2), rng.dyadic(-8, 8, 2), rng.dyadic(-4, 4, 2)));
+    }
+    let mut step: Vec<usize> = vec![0; nscenes];
+    let mut uid: u32 = 1;
+    for _ in 0..ncalls {
+        let scene = rng.below(nscenes as u64) as usize;
+        let i = step[scene];
+        step[scene] += 1;
+        let mut dets = vec![];
+        for ob in 0..nobj {
+            if rng.chance(1, 10) || uid >= 2040 {
+                continue;
+            }
+            let (x0, y0, vx, vy) = motion[ob];
+            let l = x0 + vx * i as f32 + rng.dyadic(-2, 2, 2);
+            let t = y0 + vy * i as f32;
+            let w = 20.0 + rng.dyadic(0, 4, 2);
+            let h = 30.0 + rng.dyadic(0, 4, 2);
+            let q = Some(*rng.pick(&[0.5f32, 0.625, 0.75, 0.875]) + uid as f32 / 1048576.0);
+            let feat = if rng.below(100) < pfeat {
+                let mut v = ident[ob].clone();
+                let lane = rng.below(dim as u64) as usize;
+                v[lane] += rng.dyadic(-3, 3, 4) + scene as f32 / 64.0;
+                if v.iter().all(|x| *x == 0.0) {
+                    v[0] = 0.125;
+                }
+                Some(v)
+            } else {
+                None
+            };
+            dets.push(Det { uid, q, l, t, w, h, feat });
+            uid += 1;
+        }
+        s.calls.push((scene as u64, dets));
+    }
+    s
+}
+
+// ------------------------------------------------------------------------------------------------------------
+// C15: the exclusively-owned area share as STORED by the trackers. Batches of several scenes go to BatchVisualSort in one
+// request; VisualSort gets the same calls one by one. Prints, per call, the share evaluated directly with the public
+// functions on that scene's boxes (dets field) and, per record, the share stored with the track's newest observation:
+//   share k j <uid> <track id> <stored f32 bits|-> <feature stored 0/1> <record length>
+static PANIC_LOC: std::sync::Mutex<Option<String>> = std::sync::Mutex::new(None);
+
+fn panic_loc() -> String {
+    PANIC_LOC.lock().unwrap().take().unwrap_or_else(|| "?".into())
+}
+
+fn run_c15(spec: &Spec) {
+    println!("spec {}", spec.to_line());
+    std::panic::set_hook(Box::new(|info| {
+        let loc = info.location().map(|l| format!("{}:{}", l.file(), l.line())).unwrap_or_else(|| "?".into());
+        let mut g = PANIC_LOC.lock().unwrap();
+        if g.is_none() {
+            *g = Some(loc.replace(' ', "_"));
+        }
+    }));
+    let k = spec.k;
+    let opts = spec.options();
+    let mut tracker = if spec.trk == "bvs" {
+        Tracker::Bvs(BatchVisualSort::new(spec.shards, 1 + (spec.k % 2), &opts))
+    } else {
+        Tracker::Vs(VisualSort::new(spec.shards, &opts))
+    };
+    let use_own = spec.owncol + spec.ownuse > 0.0;
+    let groups: Vec<usize> = if spec.grp.is_empty() { vec![1; spec.calls.len()] } else { spec.grp.clone() };
+    let mut j = 0usize;
+    'outer: for g in groups {
+        let calls: Vec<(usize, &(u64, Vec<Det>))> = (j..(j + g).min(spec.calls.len())).map(|x| (x, &spec.calls[x])).collect();
+        j += g;
+        // expected shares, evaluated directly on each scene's boxes
+        let mut det_ss: Vec<String> = vec![];
+        let mut boxes_all: Vec<Vec<Universal2DBox>> = vec![];
+        for (cj, (scene, dets)) in calls.iter() {
+            let boxes: Vec<Universal2DBox> = dets.iter().map(bbox_of).collect();
+            let own: Option<Vec<f32>> = if use_own {
+                guarded(|| {
+                    let refs: Vec<&Universal2DBox> = boxes.iter().collect();
+                    exclusively_owned_areas_normalized_shares(refs.as_ref(), exclusively_owned_areas(refs.as_ref()).as_ref())
+                })
+            } else {
+                None
+            };
+            if use_own && own.is_none() {
+                println!("call k={} j={} scene={} epoch=0 dets= recs=OWNPANIC@{}", k, cj, scene, panic_loc());
+                break 'outer;
+            }
+            let ds: Vec<String> = dets
+                .iter()
+                .enumerate()
+                .map(|(i, d)| {
+                    format!("{}:{}:{}:{}:{}", d.uid, f32b(d.q.unwrap_or(1.0)), d.feat.is_some() as u8, f32b(boxes[i].area()), own.as_ref().map(|p| f32b(p[i])).unwrap_or_else(|| "-".into()))
+                })
+                .collect();
+            det_ss.push(ds.join(";"));
+            boxes_all.push(boxes);
+        }
+        // the calls
+        let feats: Vec<Vec<Option<Vec<f32>>>> = calls.iter().map(|(_, (_, dets))| dets.iter().map(|d| d.feat.clone()).collect()).collect();
+        let mut results: Vec<Option<Vec<SortTrack>>> = vec![None; calls.len()];
+        let mut panicked = false;
+        match &mut tracker {
+            Tracker::Vs(t) => {
+                for (ci, (_, (scene, dets))) in calls.iter().enumerate() {
+                    let obs: Vec<VisualSortObservation> = dets
+                        .iter()
+                        .enumerate()
+                        .map(|(i, d)| VisualSortObservation::new(feats[ci][i].as_deref(), d.q, boxes_all[ci][i].clone(), Some(d.uid as i64)))
+                        .collect();
+                    match guarded(|| t.predict_with_scene(*scene, &obs)) {
+                        Some(r) => results[ci] = Some(r),
+                        None => {
+                            panicked = true;
+                            break;
+                        }
+                    }
+                }
+            }
+            Tracker::Bvs(t) => {
+                let (mut batch, res) = PredictionBatchRequest::<VisualSortObservation>::new();
+                let mut nscenes = 0;
+                for (ci, (_, (scene, dets))) in calls.iter().enumerate() {
+                    for (i, d) in dets.iter().enumerate() {
+                        batch.add(*scene, VisualSortObservation::new(feats[ci][i].as_deref(), d.q, boxes_all[ci][i].clone(), Some(d.uid as i64)));
+                    }
+                    if !dets.is_empty() {
+                        nscenes += 1;
+                    }
+                }
+                if guarded(|| t.predict(batch)).is_none() {
+                    panicked = true;
+                } else {
+                    let t0 = std::time::Instant::now();
+                    let mut got = 0;
+                    while got < nscenes {
+                        if res.ready() {
+                            let (s, tracks) = res.get();
+                            for (ci, (_, (scene, dets))) in calls.iter().enumerate() {
+                                if *scene == s && !dets.is_empty() {
+                                    results[ci] = Some(tracks.clone());
+                                }
+                            }
+                            got += 1;
+                        } else if t0.elapsed().as_secs() > 20 {
+                            panicked = true; // a voting thread died: no result will ever arrive
+                            break;
+                        } else {
+                            std::thread::sleep(std::time::Duration::from_millis(1));
+                        }
+                    }
+                }
+            }
+        }
+        let stored = tracker.tracks(spec.shards);
+        for (ci, (cj, (scene, dets))) in calls.iter().enumerate() {
+            let epoch = tracker.epoch(*scene);
+            match &results[ci] {
+                None if dets.is_empty() && !panicked => {
+                    println!("call k={} j={} scene={} epoch={} after={} dets= recs=", k, cj, scene, epoch, epoch);
+                }
+                None => {
+                    println!("call k={} j={} scene={} epoch={} dets={} recs=PANIC@{}", k, cj, scene, epoch, det_ss[ci], panic_loc());
+                }
+                Some(recs) => {
+                    let rs: Vec<String> = recs.iter().map(rec_str).collect();
+                    println!("call k={} j={} scene={} epoch={} after={} dets={} recs={}", k, cj, scene, epoch, epoch, det_ss[ci], rs.join(";"));
+                    for (d, r) in dets.iter().zip(recs.iter()) {
+                        let t = stored.iter().find(|t| t.get_track_id() == r.id);
+                        let o = t.and_then(|t| t.get_observations(0)).and_then(|v| v.first());
+                        let share = o.and_then(|o| o.attr().as_ref()).and_then(|a| *a.own_area_percentage_opt());
+                        println!(
+                            "share {} {} {} {} {} {} {}",
+                            k,
+                            cj,
+                            d.uid,
+                            r.id,
+                            share.map(f32b).unwrap_or_else(|| "-".into()),
+                            o.map(|o| o.feature().is_some() as u8).unwrap_or(2),
+                            r.length
+                        );
+                    }
+                }
+            }
+        }
+        if panicked {
+            break;
+        }
+    }
+    quiet_panics();
+    println!("end {}", k);
+}
+
+/// C15 generator: batches of 1-5 scenes x 1-6 axis-aligned boxes with partial overlaps (shares 1, ~0.75, ~0.5, 0, ...).
+fn gen_c15(k: usize, rng: &mut Rng) -> Spec {
+    let mut s = base_spec(k, rng);
+    s.trk = if rng.chance(2, 3) { "bvs".into() } else { "vs".into() };
+    s.shards = 1 + rng.below(3) as usize;
+    s.idle = 1 + rng.below(3) as usize;
+    s.hist = 1 + rng.below(3) as usize;
+    s.maxobs = *rng.pick(&[2usize, 3, 5]);
+    s.minlen = 1;
+    s.votes = 1;
+    s.vis_cos = false;
+    s.vis_thr = f32::MAX;
+    s.quse = 0.0;
+    s.qcol = 0.0;
+    s.minarea = 0.0;
+    s.pos_iou = if rng.chance(1, 2) { Some(0.25) } else { None };
+    match rng.below(3) {
+        0 => {
+            s.ownuse = *rng.pick(&[0.0625f32, 0.125, 0.25]);
+            s.owncol = 0.0;
+        }
+        1 => {
+            s.ownuse = 0.0;
+            s.owncol = *rng.pick(&[0.0625f32, 0.125, 0.3125]);
+        }
+        _ => {
+            s.ownuse = *rng.pick(&[0.0625f32, 0.125]);
+            s.owncol = *rng.pick(&[0.125f32, 0.3125]);
+        }
+    }
+    let nbatches = 2 + rng.below(5) as usize;
+    let mut uid: u32 = 1;
+    for _ in 0..nbatches {
+        let nsc = 1 + rng.below(5) as usize;
+        let mut scenes: Vec<u64> = (0..5u64).collect();
+        rng.shuffle(&mut scenes);
+        s.grp.push(nsc);
+        for sc in scenes.iter().take(nsc) {
+            let nb = 1 + rng.below(6) as usize;
+            let dx = *rng.pick(&[5.0f32, 10.0, 15.0, 25.0]);
+            let dy = *rng.pick(&[0.0f32, 4.0, 7.5, 16.0]);
+            let mut dets = vec![];
+            for b in 0..nb {
+                if uid >= 2040 {
+                    break;
+                }
+                let inner = b > 0 && rng.chance(1, 6); // a box swallowed by its predecessor: share 0 for it
+                let (l, t, w, h) = if inner {
+                    (10.0 + (b - 1) as f32 * dx + 2.25, 10.0 + (b - 1) as f32 * dy + 3.25, 6.0, 8.0)
+                } else {
+                    (10.0 + b as f32 * dx + rng.dyadic(0, 3, 2), 10.0 + b as f32 * dy + rng.dyadic(0, 3, 2), 20.0 + rng.dyadic(0, 4, 1), 32.0 + rng.dyadic(0, 4, 1))
+                };
+                let feat = if rng.chance(5, 6) { Some(vec![uid as f32, rng.dyadic(-8, 8, 2), rng.dyadic(-8, 8, 2)]) } else { None };
+                dets.push(Det { uid, q: Some(*rng.pick(&[0.5f32, 0.75, 1.0])), l, t, w, h, feat });
+                uid += 1;
+            }
+            s.calls.push((*sc, dets));
+        }
+    }
+    s
+}
+
 fn main() {
     quiet_panics();
     let a = parse_args();
@@ -1026,6 +1342,31 @@ fn main() {
                 let mut rng = Rng::new(a.seed.wrapping_mul(9_000_011).wrapping_add(k as u64));
                 let s = gen_c01(k, &mut rng);
                 run_spec(&s, true, false);
+            }
+        }
+        "c04" => {
+            for k in 0..a.n {
+                let mut rng = Rng::new(a.seed.wrapping_mul(4_000_037).wrapping_add(k as u64));
+                let s = gen_c04(k, &mut rng);
+                run_spec(&s, true, true);
+            }
+        }
+        "c15" => {
+            for k in 0..a.n {
+                let mut rng = Rng::new(a.seed.wrapping_mul(15_000_017).wrapping_add(k as u64));
+                let s = gen_c15(k, &mut rng);
+                run_c15(&s);
+            }
+        }
+        "replay15" => {
+            let txt = std::fs::read_to_string(a.file.expect("--file")).unwrap();
+            for line in txt.lines() {
+                let line = line.trim();
+                if line.is_empty() {
+                    continue;
+                }
+                let line = line.strip_prefix("spec ").unwrap_or(line);
+                run_c15(&Spec::parse(line));
             }
         }
         "replay" => {
